@@ -34,6 +34,10 @@ type c07Offender struct {
 	// is weaker than the one the library builds ("request" = RequestClientCert, "any" =
 	// RequireAnyClientCert, "if-given" = VerifyClientCertIfGiven), plus a common-name rule
 	Cfg string
+	// MapRaces: the executions of this offender also run under the happens-before oracle; an
+	// unsynchronised access pair on the contents of a map is a verdict (the Go runtime aborts
+	// the process on concurrent map access)
+	MapRaces bool
 }
 
 func c07Offenders() []c07Offender {
@@ -81,6 +85,10 @@ func c07Offenders() []c07Offender {
 		{Name: "tls-any-wrong-name", TLS: "wrong-name", Cfg: "any"},
 		{Name: "tls-if-given-no-cert", TLS: "no-cert", Cfg: "if-given"},
 		{Name: "tls-if-given-wrong-name", TLS: "wrong-name", Cfg: "if-given"},
+		// configuration writes (several parameters at once, server parameters) while the witness
+		// and the late client connect: under the happens-before oracle
+		{Name: "config-set-many", Bytes: cmd("CONFIG", "SET", "a", "1", "b", "2", "c", "3"), End: "wait", MapRaces: true},
+		{Name: "config-set-server-parameters", Bytes: concat(cmd("CONFIG", "SET", "maxclients", "5", "timeout", "0"), cmd("CONFIG", "GET", "maxclients", "port")), End: "wait", MapRaces: true},
 		{Name: "stops-reading-big-reply", Setup: [][]string{{"RPUSH", "ol", "aaaaaaaaaaaaaaaa", "bbbbbbbbbbbbbbbb"}}, Bytes: concat(cmd("LRANGE", "ol", "0", "-1"), cmd("LRANGE", "ol", "0", "-1")), End: "stall"},
 	}
 }
@@ -235,12 +243,17 @@ func (w *c07SchedWorld) body() {
 var c07WitnessExpected = []string{`+"OK"`, `$"1"`, `:"2"`, `$"x"`, `:"2"`, `[$"a" $"b"]`}
 
 func c07SchedExplorer(off c07Offender, bound int) *sched.Explorer {
-	x := &sched.Explorer{Bound: bound}
+	x := &sched.Explorer{Bound: bound, RaceDetect: off.MapRaces}
 	x.New = func() *sched.Run {
 		w := &c07SchedWorld{off: off}
 		return &sched.Run{Body: w.body, Verdict: func(r *vrt.Result) sched.Verdict {
 			if v, ok := panicVerdict(r); ok {
 				return v
+			}
+			for _, rc := range r.Races {
+				if strings.HasSuffix(rc.Loc, "[]") {
+					return sched.Verdict{Clause: "concurrent-map-access", Detail: "unsynchronised concurrent access to the contents of a map - the Go runtime aborts the process ('concurrent map read and map write'), every connection is cut: " + rc.String(), Obs: "map-race"}
+				}
 			}
 			obs := fmt.Sprintf("witness=%v offender=%v late=%s", w.witness, w.offNotes, w.late)
 			if len(w.viol) > 0 {
@@ -325,7 +338,7 @@ func c07SchedReplay(raw json.RawMessage) (string, bool, error) {
 		}
 		x := c07SchedExplorer(off, 0)
 		run := x.New()
-		r := vrt.Run(vrt.Options{Choices: cs.Choices}, run.Body, run.AtQuiet)
+		r := vrt.Run(vrt.Options{Choices: cs.Choices, RaceDetect: off.MapRaces}, run.Body, run.AtQuiet)
 		if r.Diverged != "" {
 			return "", false, fmt.Errorf("schedule does not replay: %s", r.Diverged)
 		}
